@@ -250,6 +250,9 @@ func (a *analysis) oracleC04() verdict {
 	if a.errCycle || sc.OutFailAt > 0 {
 		return inconclusive("render error in scenario")
 	}
+	if sc.Fam == "C04/resize" {
+		return a.fitsAfterResize()
+	}
 	r := a.tapeCheck()
 	a.ob("frames_replayed_through_emulator", len(a.frames))
 	a.ob("persisted_lines_at_end", len(r.persisted))
@@ -274,6 +277,64 @@ func (a *analysis) oracleC04() verdict {
 		}
 	}
 	return held(nt)
+}
+
+// fitsAfterResize: "each frame fits the terminal, in rows and in columns", for a
+// terminal whose window is resized while the container renders. What a terminal
+// does to its content on a resize is its own business, so in-place redraw across a
+// resize is not judged; what is judged is that every frame whose render cycle
+// began after a resize had returned (and before the next one was invoked) is laid
+// out for the size in force: at most rows-1 bar rows, no row wider than the
+// columns.
+func (a *analysis) fitsAfterResize() verdict {
+	sc := a.sc
+	type rs struct {
+		inv, ret   int64
+		rows, cols int
+	}
+	sizes := []rs{{0, 0, sc.PtyRows, sc.PtyCols}}
+	for _, o := range a.hist() {
+		if o.Op.K == "resize" && !o.Skipped && o.Res == "ok" {
+			sizes = append(sizes, rs{o.Inv, o.Ret, int(o.Op.N), o.Op.B})
+		}
+	}
+	checked := 0
+	for fi, f := range a.frames {
+		if f.Cycle < 0 || f.Cycle >= len(a.begins) {
+			continue
+		}
+		tb := a.begins[f.Cycle]
+		// the size in force: the last resize that had returned before the cycle began,
+		// provided no other resize overlaps the cycle
+		cur := -1
+		ambiguous := false
+		for i, z := range sizes {
+			if z.ret <= tb {
+				cur = i
+			} else if z.inv < f.T1 {
+				ambiguous = true
+			}
+		}
+		if cur < 0 || ambiguous {
+			continue
+		}
+		z := sizes[cur]
+		if cur > 0 {
+			checked++
+		}
+		if rc := f.rowCount(); rc > z.rows-1 && z.rows > 1 {
+			return a.fv("resize-rows", "frame %d (cycle began at t=%d) has %d rows; the terminal has had %d rows since t=%d: the frame does not fit", fi, tb, rc, z.rows, z.ret)
+		}
+		for _, g := range f.Groups {
+			for _, l := range g.Lines {
+				if w := vterm.StringWidth(stripSGR(l)); w > z.cols {
+					return a.fv("resize-cols", "frame %d (cycle began at t=%d): a row is %d columns wide; the terminal has had %d columns since t=%d", fi, tb, w, z.cols, z.ret)
+				}
+			}
+		}
+	}
+	a.ob("frames_checked_after_a_resize", checked)
+	return held(checked > 0)
 }
 
 // extenderRows: a bar's row group is its row plus the lines of its extender, all
